@@ -77,13 +77,54 @@ def rule_pinball(ctx):
     e, o, tau = sp.symbols("e o tau", real=True)
     # straight-line locals inlined; reshape/asarray are identities on one element
     env = {}
-    for st in f.body:
-        if isinstance(st, ast.Assign) and isinstance(st.targets[0], ast.Name):
-            env[st.targets[0].id] = st.value
+
+    def _only_raises(stmts):
+        return all(isinstance(s_, (ast.Raise, ast.Pass)) or (isinstance(s_, ast.Expr) and isinstance(s_.value, ast.Constant))
+                   or (isinstance(s_, ast.If) and _only_raises(s_.body) and _only_raises(s_.orelse)) for s_ in stmts)
+
+    def _element_identity(name, value):
+        """value is `name` seen through reshape / ravel / asarray / atleast_nd / astype(float): the same element"""
+        v = value
+        for _ in range(6):
+            if isinstance(v, ast.Name):
+                return v.id == name
+            if isinstance(v, ast.Call) and isinstance(v.func, ast.Attribute) and v.func.attr in ("reshape", "ravel", "flatten", "copy", "squeeze") \
+                    and not (isinstance(v.func.value, ast.Name) and v.func.value.id in ("np", "numpy")):
+                v = v.func.value
+                continue
+            if isinstance(v, ast.Call) and (dotted(v.func) or "") in ("np.asarray", "np.array", "np.ravel", "np.atleast_1d", "np.atleast_2d", "np.reshape", "np.asanyarray") and v.args:
+                v = v.args[0]
+                continue
+            return False
+        return False
+
+    def _take(st):
+        # nothing is skipped: what the rule does not read, it does not judge
+        if isinstance(st, ast.Assign) and len(st.targets) == 1:
+            t_ = st.targets[0]
+            pairs = []
+            if isinstance(t_, ast.Name):
+                pairs = [(t_.id, st.value)]
+            elif isinstance(t_, ast.Tuple) and isinstance(st.value, ast.Tuple) and len(t_.elts) == len(st.value.elts) and all(isinstance(e_, ast.Name) for e_ in t_.elts):
+                pairs = [(e_.id, v_) for e_, v_ in zip(t_.elts, st.value.elts)]
+            else:
+                unread.append("assignment `%s`" % norm(st)[:70])
+            for nm_, v_ in pairs:
+                env[nm_] = v_           # (re-bindings of the arguments are judged by the obligations `taus` and `alignment` below)
         elif isinstance(st, ast.Try):
             for s2 in st.body:
-                if isinstance(s2, ast.Assign) and isinstance(s2.targets[0], ast.Name):
-                    env[s2.targets[0].id] = s2.value
+                _take(s2)
+            if st.orelse or st.finalbody or not all(_only_raises(h_.body) for h_ in st.handlers):
+                unread.append("try statement with handlers that do more than raise")
+        elif isinstance(st, ast.If) and _only_raises(st.body) and _only_raises(st.orelse):
+            pass
+        elif isinstance(st, ast.Return) or (isinstance(st, ast.Expr) and isinstance(st.value, ast.Constant)):
+            pass
+        else:
+            unread.append("statement `%s`" % norm(st)[:70])
+    unread = []
+    for st in f.body:
+        _take(st)
     ev = Sym(ctx.repo, elementwise=True)
 
     def term(node):
@@ -214,6 +255,9 @@ def rule_pinball(ctx):
                 raise AnalysisError("quantile_score: re-binding `%s = %s` of an argument is not understood" % (st.targets[0].id, norm(v)[:70]))
     ctx.ob("quantile_score.alignment", not bad_al, "re-bindings of the arguments that change the order of their elements: %s (%d re-bindings looked at)" % (bad_al or "none", n_al),
            "the arguments are only re-shaped: column j of y_tau belongs to taus[j], row i to y_test[i]", node=f.node, func=f)
+    if unread:
+        # nothing is skipped silently: what the reading above stepped over is said (after the obligations it could decide)
+        raise AnalysisError("quantile_score: outside the straight-line form the loss is read from: %s" % "; ".join(unread)[:300])
 
 
 def rule_shapes(ctx):
